@@ -1,1 +1,197 @@
-/- C07 — property theorems (to be written) -/
+/-
+  C07 — every traversal mode enumerates exactly the slice of content it names.
+  Property theorems only; helper lemmas live in FtProofs/Lemmas/Traverse.lean
+  (namespace `Ft.C07`, model in FtModel/Traverse.lean).
+-/
+import FtProofs.Lemmas.Traverse
+set_option linter.unusedSectionVars false
+set_option linter.unusedSimpArgs false
+set_option linter.unusedVariables false
+namespace Ft
+open StrictTotal Ft.C07
+
+/-! ### occupancy, range and active-range iteration (any strictly ordered coordinate type) -/
+section range
+variable {κ : Type} [LT κ] [DecidableRel (α := κ) (· < ·)] [DecidableEq κ] [StrictTotal κ]
+variable {π : Type}
+
+/-- **`iterRange(start, end)`** on a sorted fiber yields precisely the non-empty elements with
+    `start <= coord < end` (either bound may be `None`), in ascending order, each once. -/
+theorem iterRange_spec (emp : π → Bool) (s e : Option κ) (f : Fib κ π) (hs : Sorted f) :
+    strip (iterRange emp s e none f) = rangeSpec emp s e f := by
+  rw [iterRange_strip, rangeLoop_eq_filter emp s e f hs]
+
+/-- … and what it yields are the fiber's own payloads: a yield tagged with position `i` is
+    the element stored at `i` (this is also the position `setSavedPos` records). -/
+theorem iterRange_yields_own_payloads (emp : π → Bool) (s e : Option κ) (sp : Option Nat) (f : Fib κ π)
+    (c : κ) (i : Nat) (p : π) (h : (c, (i, p)) ∈ iterRange emp s e sp f) : f[i]? = some (c, p) :=
+  mem_iterRange h
+
+/-- **a valid saved-position shortcut never changes what is yielded**: if no element before
+    `start_pos` belongs to the slice, the traversal from `start_pos` yields the same elements
+    (same payload objects, same positions). -/
+theorem iterRange_startpos (emp : π → Bool) (s e : Option κ) (sp : Nat) (f : Fib κ π) (hs : Sorted f)
+    (hv : validStart emp s e sp f = true) :
+    iterRange emp s e (some sp) f = iterRange emp s e none f :=
+  iterRange_startpos_eq emp s e sp f hs hv
+
+/-- the positions a traversal saves are valid shortcuts for every later slice that begins at
+    or after the coordinate yielded there (how `getSavedPos()` is meant to be used). -/
+theorem iterRange_saved_valid (emp : π → Bool) (s e : Option κ) (sp : Option Nat) (f : Fib κ π) (hs : Sorted f)
+    (c : κ) (i : Nat) (p : π) (h : (c, (i, p)) ∈ iterRange emp s e sp f)
+    (s' : κ) (e' : Option κ) (hle : ¬ s' < c) : validStart emp (some s') e' i f = true :=
+  saved_is_valid hs h s' e' hle
+
+/-- **`iterOccupancy()`** (= `iterRange(None, None)`): the non-empty elements in storage order;
+    no ordering assumption is needed because nothing is clipped. -/
+theorem iterOccupancy_spec (emp : π → Bool) (f : Fib κ π) :
+    strip (iterRange emp none none none f) = f.filter (fun x => !emp x.2) := by
+  rw [iterRange_strip, rangeLoop_none]
+
+end range
+
+/-- on trees: default iteration of a compressed rank presents `present` (the notion C04, C05
+    and C12 are stated with). -/
+theorem iterOccupancy_eq_present {ν : Type} [DecidableEq ν] (dflt : ν) (d : Nat) (f : Tree Int ν (d + 1)) :
+    strip (iterRange (isEmpty dflt d) none none none (show List (Int × Tree Int ν d) from f)) = present dflt d f :=
+  iterOccupancy_spec (isEmpty dflt d) _
+
+/-! ### shape iteration -/
+section shape
+variable {π : Type}
+
+/-- **`iterRangeShape(start, end, step)`** (and `iterShape` / `iterActiveShape`, which call it with
+    `(0, shape)` / the active range): every coordinate of the range, in order, with the stored
+    payload (and its position) or the default standing in for an absent one. -/
+theorem iterRangeShape_spec (mk : π) (f : Fib Int π) (hs : Sorted f) (s e : Int) (k : Nat) :
+    shapeIter mk f (pyRange s e k) = shapeSpec mk f (pyRange s e k) :=
+  shapeIter_eq_spec mk hs _
+
+/-- what "the stored payload or the default" means: the payload component is `lookup` or the
+    default; a position component `some i` points at that very element, `none` means absent. -/
+theorem shapeSpec_row (mk : π) (f : Fib Int π) (c : Int) :
+    (lookupPos mk f c).2 = (lookup f c).getD mk ∧
+    (∀ i, (lookupPos mk f c).1 = some i → f[i]? = some (c, (lookupPos mk f c).2)) ∧
+    ((lookupPos mk f c).1 = none → lookup f c = none) :=
+  ⟨lookupPos_snd mk f c, fun _ h => lookupPos_fst_some h, lookupPos_fst_none⟩
+
+/-- the coordinates of the range: `start, start+step, …` below `end`, strictly ascending. -/
+theorem pyRange_spec (s e : Int) (k : Nat) :
+    (∀ c, c ∈ pyRange s e k ↔ 0 < k ∧ c < e ∧ ∃ n : Nat, c = s + n * k) ∧
+    (pyRange s e k).Pairwise (· < ·) :=
+  ⟨mem_pyRange s e k, pyRange_ascending s e k⟩
+
+/-- **reference variants insert exactly the visited absent coordinates**: after
+    `iterRangeShapeRef` over the coordinates `cs` the fiber is sorted, holds every original
+    element unchanged, holds the default at every visited coordinate that was absent, and nothing
+    else; the yields are those of the plain traversal. -/
+theorem iterRangeShapeRef_inserts_exactly (mk : π) (f : Fib Int π) (hs : Sorted f) (cs : List Int) :
+    Sorted (shapeRefLoop mk f cs).1 ∧
+    (∀ c, lookup (shapeRefLoop mk f cs).1 c = refExpect mk f cs c) ∧
+    (shapeRefLoop mk f cs).2 = cs.map (fun c => (c, (lookup f c).getD mk)) :=
+  shapeRefLoop_spec mk cs f hs
+
+/-- the executable form of that statement accepts the model's result … -/
+theorem iterRangeShapeRef_specB_sound [DecidableEq π] (mk : π) (f : Fib Int π) (hs : Sorted f) (cs : List Int) :
+    refSpecB mk f cs (shapeRefLoop mk f cs).1 = true := by
+  obtain ⟨h1, h2, _⟩ := shapeRefLoop_spec mk cs f hs
+  unfold refSpecB
+  rw [Bool.and_eq_true, List.all_eq_true]
+  exact ⟨(sortedB_iff _).2 h1, fun c _ => by simpa using h2 c⟩
+
+/-- … and nothing else (so checking it on the implementation's fiber is the same test as
+    comparing with the model). -/
+theorem iterRangeShapeRef_specB_complete [DecidableEq π] (mk : π) (f : Fib Int π) (hs : Sorted f) (cs : List Int)
+    (out : Fib Int π) (h : refSpecB mk f cs out = true) : out = (shapeRefLoop mk f cs).1 := by
+  obtain ⟨h1, h2, _⟩ := shapeRefLoop_spec mk cs f hs
+  unfold refSpecB at h
+  rw [Bool.and_eq_true, List.all_eq_true] at h
+  obtain ⟨hso, hall⟩ := h
+  have hso := (sortedB_iff _).1 hso
+  apply sorted_eq_of_lookup hso h1
+  intro c
+  rw [h2 c]
+  by_cases hk : c ∈ out.map (·.1) ++ f.map (·.1) ++ cs
+  · simpa using hall c hk
+  · simp only [List.mem_append, List.mem_map, not_or, not_exists, not_and] at hk
+    have e1 : lookup out c = none := lookup_eq_none_of_ne (fun x hx => hk.1.1 x hx)
+    have e2 : lookup f c = none := lookup_eq_none_of_ne (fun x hx => hk.1.2 x hx)
+    simp [refExpect, e1, e2, hk.2]
+
+/-- **repeatable**: a second reference traversal of the same range inserts nothing more and
+    yields the same (coordinate, payload) list. -/
+theorem iterRangeShapeRef_reiterable (mk : π) (f : Fib Int π) (hs : Sorted f) (cs : List Int) :
+    shapeRefLoop mk (shapeRefLoop mk f cs).1 cs = shapeRefLoop mk f cs := by
+  obtain ⟨h1, h2, h3⟩ := shapeRefLoop_spec mk cs f hs
+  have hall : ∀ c ∈ cs, lookup (shapeRefLoop mk f cs).1 c ≠ none := by
+    intro c hc
+    rw [h2 c]; unfold refExpect
+    cases lookup f c <;> simp [hc]
+  rw [shapeRefLoop_present mk cs _ h1 hall]
+  apply Prod.ext
+  · rfl
+  · show cs.map _ = (shapeRefLoop mk f cs).2
+    rw [h3]
+    apply List.map_congr_left
+    intro c hc
+    rw [h2 c]; unfold refExpect
+    cases lookup f c <;> simp [hc]
+
+/-! ### dense co-iteration -/
+
+/-- **`coiterRangeShape`** (and `coiterShape` / `coiterActiveShape`): every coordinate of the
+    range with the tuple of the fibers' stored-or-default payloads. -/
+theorem coiterRangeShape_spec (mk : π) (fs : List (Fib Int π)) (hs : ∀ f ∈ fs, Sorted f) (s e : Int) (k : Nat) :
+    coShape mk fs (pyRange s e k) = coShapeSpec mk fs (pyRange s e k) :=
+  coShape_eq_spec mk fs hs _
+
+/-- **`coiterRangeShapeRef`**: each fiber ends up exactly as after its own single-fiber
+    reference traversal (hence: original plus exactly the visited absent coordinates), and the
+    yields are the tuples of stored-or-default payloads. -/
+theorem coiterRangeShapeRef_spec (mk : π) (fs : List (Fib Int π)) (hs : ∀ f ∈ fs, Sorted f) (cs : List Int) :
+    (coShapeRefLoop mk fs cs).1 = fs.map (fun f => (shapeRefLoop mk f cs).1) ∧
+    (coShapeRefLoop mk fs cs).2 = cs.map (fun c => (c, fs.map (fun f => (lookup f c).getD mk))) :=
+  coShapeRefLoop_spec mk cs fs hs
+
+/-- **lazily produced fibers can be iterated repeatedly**: the lazy fiber returned by
+    `coiterRangeShapeRef` mutates its operands on the first traversal; a second traversal
+    (a fresh iterator instance on the mutated operands) yields the identical list and changes
+    nothing further. -/
+theorem coiterRangeShapeRef_reiterable (mk : π) (fs : List (Fib Int π)) (hs : ∀ f ∈ fs, Sorted f) (cs : List Int) :
+    coShapeRefLoop mk (coShapeRefLoop mk fs cs).1 cs = coShapeRefLoop mk fs cs := by
+  obtain ⟨h1, h2⟩ := coShapeRefLoop_spec mk cs fs hs
+  have hs2 : ∀ g ∈ (coShapeRefLoop mk fs cs).1, Sorted g := by
+    rw [h1]; intro g hg
+    obtain ⟨f, hf, rfl⟩ := List.mem_map.1 hg
+    exact (shapeRefLoop_spec mk cs f (hs f hf)).1
+  obtain ⟨k1, k2⟩ := coShapeRefLoop_spec mk cs _ hs2
+  apply Prod.ext
+  · rw [k1, h1, List.map_map]
+    apply List.map_congr_left
+    intro f hf
+    show (shapeRefLoop mk (shapeRefLoop mk f cs).1 cs).1 = _
+    rw [iterRangeShapeRef_reiterable mk f (hs f hf)]
+  · rw [k2, h2, h1]
+    apply List.map_congr_left
+    intro c hc
+    congr 1
+    rw [List.map_map]
+    apply List.map_congr_left
+    intro f hf
+    show (lookup (shapeRefLoop mk f cs).1 c).getD mk = _
+    rw [(shapeRefLoop_spec mk cs f (hs f hf)).2.1 c]
+    unfold refExpect
+    cases lookup f c <;> simp [hc]
+
+end shape
+
+/-! ### non-vacuity -/
+
+example : Sorted ([(0, (0 : Int)), (2, 5), (3, 0), (6, 7)] : Fib Int Int) := (sortedB_iff _).1 (by decide)
+example : validStart (fun v : Int => v == 0) (some 3) (some 7) 2 [(0, 0), (2, 5), (3, 0), (6, 7)] = true := by decide
+example : strip (iterRange (fun v : Int => v == 0) (some (1 : Int)) (some 6) none [(0, 4), (2, 5), (3, 0), (6, 7)])
+    = [(2, 5)] := by decide
+#guard (shapeRefLoop (0 : Int) [(1, 5)] (pyRange 0 3 1)) == ([(0, 0), (1, 5), (2, 0)], [(0, 0), (1, 5), (2, 0)])
+#guard pyRange (-1) 6 3 == [-1, 2, 5]
+
+end Ft
